@@ -317,4 +317,65 @@ theorem C06_history_equals_fresh_needs_refclosed :
       request frames (initial frames r₀) r ≠ initial frames r :=
   ⟨[⟨false, []⟩, ⟨true, [0]⟩], ⟨0, 0, 8, 8⟩, ⟨1, 1, 2, 2⟩, by decide⟩
 
+/-! ## Blend chains under a region request -/
+
+theorem mem_stageNeed_of_mem (c : Cfg) (hu : c.upsampling = 0) (F : Region) (x y : Int)
+    (h : Mem x y F) : Mem x y (stageNeed c F) := by
+  unfold stageNeed upNeed
+  simp only [hu, Nat.zero_div, Nat.zero_mod, if_true, upNeedLoop]
+  have h1 : Mem x y (F.pad (epfRadius c.epfIters)) := by
+    rw [mem_pad]; unfold Mem at h; omega
+  have h2 : Mem x y (if c.gab then (F.pad (epfRadius c.epfIters)).pad 1 else F.pad (epfRadius c.epfIters)) := by
+    split
+    · rw [mem_pad]; unfold Mem at h1; omega
+    · exact h1
+  split
+  · apply C06_down_up_contains
+    rw [mem_pad]; unfold Mem at h2; omega
+  · exact h2
+
+/--
+**The frame at the bottom of a blend chain covers what the chain asks of it.** For a normal frame
+without upsampling (any crop offset, Gabor / EPF / chroma subsampling on or off, palette/squeeze or
+not): every cell of the region `composite` requests for an image-region request `R` that lies on the
+frame is a cell of `color_padded_region`, the window the frame is decoded and filtered on — i.e. of
+the grid the frame hands to `blend()`. Together with `C05_blend_chain_request_covered` (each layer
+asks its source for exactly its own request) no layer of a chain of any depth reads outside what
+the layer below rendered. (With upsampling the grid is `color_padded_region` scaled up; that case is
+covered by the crop-vs-full runs only.) -/
+theorem C06_source_grid_covers_request (c : Cfg) (hv : c.valid = true) (hn : c.normal = true)
+    (hr : c.refOnly = false) (hl : c.lfLevel = 0) (hu : c.upsampling = 0) (force : Bool)
+    (R : Region) (x y : Int)
+    (h : Mem x y (compositeRegion c (R.applyOrientation c.imgW c.imgH c.orientation)))
+    (hf : Mem x y (Region.withSize c.fw c.fh)) :
+    Mem x y (plumb c force R).colorPadded := by
+  -- the cell is a cell of the frame region
+  have hfr : Mem x y (imageRegionToFrame c R true) := by
+    rw [(C06_frame_region_is_request c R).1 hr]
+    refine ⟨?_, hf⟩
+    unfold compositeRegion at h
+    simp only [hn, hl, if_true, Nat.zero_mul, Region.downsample] at h
+    have := ((mem_intersection _ _ x y).1 h).1
+    rw [mem_translate] at this
+    have e1 : x - -c.x0 = x + c.x0 := by omega
+    have e2 : y - -c.y0 = y + c.y0 := by omega
+    rwa [e1, e2] at this
+  have hplumb : (plumb c force R).lfPadded = imageRegionToFrame c R true := by
+    simp [plumb, padLfRegion, hl, imageRegionToFrame, Region.downsample]
+  have h3 := (C06_padded_region_sufficient c hv force R).2.2.1
+  apply h3 x y
+  · rw [hplumb]; exact mem_stageNeed_of_mem c hu _ x y hfr
+  · simpa [Cfg.colorSampleWidth, Cfg.colorSampleHeight, Cfg.sampleWidth, Cfg.sampleHeight, Cfg.sampleDim, hu, hl] using hf
+
+
+/-- a Gabor + EPF layer at crop offset (2, 2) of a 64×64 image: the hypotheses hold and the cell
+`(8, 8)` of its request `(10, 10, 8, 8)` is on the frame -/
+def chainCfg : Cfg :=
+  { imgW := 64, imgH := 64, orientation := 1, x0 := 2, y0 := 2, fw := 40, fh := 40, refOnly := false, normal := true, lfLevel := 0, upsampling := 0, ec := [], epfIters := 2, gab := true, ycbcr := false, groupSizeShift := 1 }
+
+example : chainCfg.valid = true ∧
+    Mem 8 8 (compositeRegion chainCfg (Region.applyOrientation ⟨10, 10, 8, 8⟩ 64 64 1)) ∧
+    Mem 8 8 (Region.withSize chainCfg.fw chainCfg.fh) ∧
+    (plumb chainCfg false ⟨10, 10, 8, 8⟩).colorPadded = ⟨0, 0, 24, 24⟩ := by decide
+
 end Jxl.Region
